@@ -532,6 +532,22 @@ func (c *shCase) run() {
 			if h.call == nil {
 				c.callVsClose(h)
 			}
+		case roll < 94 && len(open) > 0 && len(open) < len(c.handles) && !c.anyBlocked():
+			// an item is waiting, a handle is open but not accepting, and a CLOSED handle calls
+			// accept/read: it must fail, whatever is queued
+			if len(c.queued) == 0 {
+				c.arrive()
+			}
+			var closed []*shHandle
+			for _, h := range c.handles {
+				if !h.open && h.call == nil {
+					closed = append(closed, h)
+				}
+			}
+			for k := 0; k < 3 && len(closed) > 0; k++ {
+				c.call(Pick(r, closed))
+			}
+			c.out.Stat("sh.closed-call-with-queued", 1)
 		case roll < 96:
 			c.rebind()
 		default:
@@ -582,6 +598,10 @@ func countFDs() int {
 func sharedEngine(rng *Rng, n int, out *Out, args map[string]string) {
 	setupNet(args, out)
 	for i := 0; i < n; i++ {
+		if out.oracle >= 12 {
+			out.Note("stopping after %d oracle reports: the remaining cases would only repeat them", out.oracle)
+			break
+		}
 		r := rng.Fork()
 		c := &shCase{r: r, out: out, packet: r.Chance(45), items: map[int]*shItem{}, mgr: service.NewListenerManager()}
 		c.addr = Pick(r, []string{"127.0.0.1:9401", "127.0.0.1:9402", "[::1]:9403"})
